@@ -16,10 +16,38 @@ def attempt (fr : Frame) (inner : Frame → Body) (k : Nat) (s : St) : St × Res
   inner { fr with retryC := some k } { s with ctx := Ctx.set s.ctx "retryCounter" (.int k) }
 
 /-- `max` is set (not `None`, not 0) and attempt `k` is the `max`-th. -/
-def atMax (max : Option Nat) (k : Nat) : Bool :=
+def atMax (max : Option Int) (k : Nat) : Bool :=
   match max with
-  | some m => m != 0 && k == m
+  | some m => m != 0 && (k : Int) == m
   | none => false
+
+/-- `while_until_true` after a failed attempt `k`: it sleeps and goes on iff `max_attempts` is falsy
+    (`None`, 0) or `k < max_attempts`; otherwise it breaks (and `assert is_retry_ok` fails). -/
+def goesOn (max : Option Int) (k : Nat) : Bool :=
+  match max with
+  | some m => m == 0 || (k : Int) < m
+  | none => true
+
+/-- attempt `k` is below a real bound (or there is no bound). -/
+def belowMax (max : Option Int) (k : Nat) : Prop := ∀ m, max = some m → m ≠ 0 → (k : Int) < m
+
+theorem belowMax_atMax (max : Option Int) (k : Nat) (h : belowMax max k) : atMax max k = false := by
+  cases max with
+  | none => rfl
+  | some m =>
+    by_cases hm : m = 0
+    · simp [atMax, hm]
+    · have := h m rfl hm
+      simp only [atMax, Bool.and_eq_false_imp, beq_eq_false_iff_ne]; intro _; omega
+
+theorem belowMax_goesOn (max : Option Int) (k : Nat) (h : belowMax max k) : goesOn max k = true := by
+  cases max with
+  | none => rfl
+  | some m =>
+    by_cases hm : m = 0
+    · simp [goesOn, hm]
+    · have := h m rfl hm
+      simp [goesOn, this]
 
 /-- the one `time.sleep(backoff(k))` after failed attempt `k`: one entry appended to `sleeps`,
     the random source advanced by what the strategy drew. -/
@@ -28,13 +56,13 @@ def sleepAfter (bo : BackoffState) (k : Nat) (s1 : St) : St :=
 
 /-! ### one attempt -/
 
-theorem retryIter_success (cfg : RetryCfg) (fr : Frame) (inner : Frame → Body) (max : Option Nat)
+theorem retryIter_success (cfg : RetryCfg) (fr : Frame) (inner : Frame → Body) (max : Option Int)
     (fuel k : Nat) (bo : BackoffState) (s s1 : St) (r : Res)
     (hi : attempt fr inner k s = (s1, r)) (hr : r.isErr = false) :
     retryIter cfg fr inner max (fuel + 1) k bo s = (s1, r) :=
   retryIter_nonerr cfg fr inner max fuel k bo s s1 r hi hr
 
-theorem retryIter_last (cfg : RetryCfg) (fr : Frame) (inner : Frame → Body) (max : Option Nat)
+theorem retryIter_last (cfg : RetryCfg) (fr : Frame) (inner : Frame → Body) (max : Option Int)
     (fuel k : Nat) (bo : BackoffState) (s s1 : St) (e : ExcV) (h : Bool)
     (hi : attempt fr inner k s = (s1, .err e h)) (hm : atMax max k = true) :
     retryIter cfg fr inner max (fuel + 1) k bo s = (s1, .err e h) := by
@@ -42,7 +70,7 @@ theorem retryIter_last (cfg : RetryCfg) (fr : Frame) (inner : Frame → Body) (m
   unfold attempt at hi
   cases max <;> simp only [atMax] at hm <;> simp only [hi, hm, if_true]
 
-theorem retryIter_stop (cfg : RetryCfg) (fr : Frame) (inner : Frame → Body) (max : Option Nat)
+theorem retryIter_stop (cfg : RetryCfg) (fr : Frame) (inner : Frame → Body) (max : Option Int)
     (fuel k : Nat) (bo : BackoffState) (s s1 : St) (e : ExcV) (h : Bool)
     (hi : attempt fr inner k s = (s1, .err e h)) (hm : atMax max k = false)
     (hf : retryFilters cfg s1 e.name = .ok true) :
@@ -51,7 +79,7 @@ theorem retryIter_stop (cfg : RetryCfg) (fr : Frame) (inner : Frame → Body) (m
   unfold attempt at hi
   cases max <;> simp only [atMax] at hm <;> simp only [hi, hm, hf, Bool.false_eq_true, if_false]
 
-theorem retryIter_filter_error (cfg : RetryCfg) (fr : Frame) (inner : Frame → Body) (max : Option Nat)
+theorem retryIter_filter_error (cfg : RetryCfg) (fr : Frame) (inner : Frame → Body) (max : Option Int)
     (fuel k : Nat) (bo : BackoffState) (s s1 : St) (e : ExcV) (h : Bool) (x : Exc)
     (hi : attempt fr inner k s = (s1, .err e h)) (hm : atMax max k = false)
     (hf : retryFilters cfg s1 e.name = .error x) :
@@ -60,17 +88,52 @@ theorem retryIter_filter_error (cfg : RetryCfg) (fr : Frame) (inner : Frame → 
   unfold attempt at hi
   cases max <;> simp only [atMax] at hm <;> simp only [hi, hm, hf, Bool.false_eq_true, if_false]
 
-theorem retryIter_again (cfg : RetryCfg) (fr : Frame) (inner : Frame → Body) (max : Option Nat)
+/-- a failed attempt that is retried: `while_until_true` goes on (`goesOn`) and `time.sleep` accepts the
+    duration (it is not negative): one sleep, then attempt `k+1` with the advanced back-off callable. -/
+theorem retryIter_again (cfg : RetryCfg) (fr : Frame) (inner : Frame → Body) (max : Option Int)
     (fuel k : Nat) (bo : BackoffState) (s s1 : St) (e : ExcV) (h : Bool)
     (hi : attempt fr inner k s = (s1, .err e h)) (hm : atMax max k = false)
-    (hf : retryFilters cfg s1 e.name = .ok false) :
+    (hf : retryFilters cfg s1 e.name = .ok false)
+    (hgo : goesOn max k = true) (hnn : 0 ≤ (interval bo k s1.rnd).1.n) :
     retryIter cfg fr inner max (fuel + 1) k bo s =
       retryIter cfg fr inner max fuel (k + 1) (interval bo k s1.rnd).2.1 (sleepAfter bo k s1) := by
+  have hlt : ¬ (interval bo k s1.rnd).1.n < 0 := by omega
   conv => lhs; unfold retryIter
   unfold attempt at hi
-  cases max <;> simp only [atMax] at hm <;> simp only [hi, hm, hf, Bool.false_eq_true, if_false] <;> rfl
+  cases max <;> simp only [atMax] at hm <;> simp only [goesOn] at hgo <;>
+    simp only [hi, hm, hf, hgo, hlt, Bool.false_eq_true, if_false, if_true] <;> rfl
 
-theorem retryIter_no_fuel (cfg : RetryCfg) (fr : Frame) (inner : Frame → Body) (max : Option Nat)
+/-- a failed attempt that would be retried, but the back-off strategy yields a NEGATIVE duration:
+    `time.sleep` raises ValueError - nothing is slept, no further attempt; the random source is where
+    the strategy left it. -/
+theorem retryIter_negative_sleep (cfg : RetryCfg) (fr : Frame) (inner : Frame → Body) (max : Option Int)
+    (fuel k : Nat) (bo : BackoffState) (s s1 : St) (e : ExcV) (h : Bool)
+    (hi : attempt fr inner k s = (s1, .err e h)) (hm : atMax max k = false)
+    (hf : retryFilters cfg s1 e.name = .ok false)
+    (hgo : goesOn max k = true) (hneg : (interval bo k s1.rnd).1.n < 0) :
+    retryIter cfg fr inner max (fuel + 1) k bo s =
+      raiseNew { s1 with rnd := (interval bo k s1.rnd).2.2 } "ValueError" "sleep length must be non-negative" := by
+  conv => lhs; unfold retryIter
+  unfold attempt at hi
+  cases max <;> simp only [atMax] at hm <;> simp only [goesOn] at hgo <;>
+    simp only [hi, hm, hf, hgo, hneg, Bool.false_eq_true, if_false, if_true]
+
+/-- a failed attempt after which `while_until_true` breaks with result False (`max_attempts` truthy and
+    `k ≥ max_attempts`, the attempt not being the `max`-th): the back-off callable has been called (its
+    state and the random source advanced), nothing is slept, and `assert is_retry_ok` raises. -/
+theorem retryIter_assert (cfg : RetryCfg) (fr : Frame) (inner : Frame → Body) (max : Option Int)
+    (fuel k : Nat) (bo : BackoffState) (s s1 : St) (e : ExcV) (h : Bool)
+    (hi : attempt fr inner k s = (s1, .err e h)) (hm : atMax max k = false)
+    (hf : retryFilters cfg s1 e.name = .ok false) (hgo : goesOn max k = false) :
+    retryIter cfg fr inner max (fuel + 1) k bo s =
+      raiseNew { s1 with rnd := (interval bo k s1.rnd).2.2 } "AssertionError" "" := by
+  conv => lhs; unfold retryIter
+  unfold attempt at hi
+  cases max <;> simp only [atMax] at hm <;> simp only [goesOn] at hgo <;>
+    simp only [hi, hm, hf, hgo, Bool.false_eq_true, if_false]
+  · cases hgo
+
+theorem retryIter_no_fuel (cfg : RetryCfg) (fr : Frame) (inner : Frame → Body) (max : Option Int)
     (k : Nat) (bo : BackoffState) (s : St) :
     retryIter cfg fr inner max 0 k bo s = (s, .outOfFuel) := by
   unfold retryIter; rfl
@@ -92,10 +155,19 @@ def Retried (cfg : RetryCfg) (fr : Frame) (inner : Frame → Body) (bo : Backoff
   ∃ e h, (attempt fr inner (i + 1) (before fr inner bo s i).1).2 = .err e h ∧
     retryFilters cfg (attempt fr inner (i + 1) (before fr inner bo s i).1).1 e.name = .ok false
 
+/-- the duration the strategy gives for the sleep after failed attempt `i+1` of the chain -/
+def chainInterval (fr : Frame) (inner : Frame → Body) (bo : BackoffState) (s : St) (i : Nat) : Num :=
+  (interval (before fr inner bo s i).2 (i + 1) (attempt fr inner (i + 1) (before fr inner bo s i).1).1.rnd).1
+
+/-- … is one `time.sleep` accepts (not negative). -/
+def SleepOk (fr : Frame) (inner : Frame → Body) (bo : BackoffState) (s : St) (i : Nat) : Prop :=
+  0 ≤ (chainInterval fr inner bo s i).n
+
 /-- After `n` failed-and-retried attempts the loop stands before attempt `n+1`. -/
-theorem retryIter_prefix (cfg : RetryCfg) (fr : Frame) (inner : Frame → Body) (max : Option Nat)
+theorem retryIter_prefix (cfg : RetryCfg) (fr : Frame) (inner : Frame → Body) (max : Option Int)
     (bo : BackoffState) (s : St) (n : Nat)
-    (hfail : ∀ i, i < n → Retried cfg fr inner bo s i) (hmax : ∀ i, i < n → atMax max (i + 1) = false)
+    (hfail : ∀ i, i < n → Retried cfg fr inner bo s i) (hmax : ∀ i, i < n → belowMax max (i + 1))
+    (hsl : ∀ i, i < n → SleepOk fr inner bo s i)
     (fuel : Nat) :
     retryIter cfg fr inner max (fuel + n) 1 bo s =
       retryIter cfg fr inner max fuel (n + 1) (before fr inner bo s n).2 (before fr inner bo s n).1 := by
@@ -103,12 +175,14 @@ theorem retryIter_prefix (cfg : RetryCfg) (fr : Frame) (inner : Frame → Body) 
   | zero => rfl
   | succ n ih =>
     have h1 : fuel + (n + 1) = (fuel + 1) + n := by omega
-    rw [h1, ih (fun i hi => hfail i (by omega)) (fun i hi => hmax i (by omega)) (fuel + 1)]
+    rw [h1, ih (fun i hi => hfail i (by omega)) (fun i hi => hmax i (by omega)) (fun i hi => hsl i (by omega))
+      (fuel + 1)]
     obtain ⟨e, h, he, hf⟩ := hfail n (by omega)
     have hi : attempt fr inner (n + 1) (before fr inner bo s n).1 =
         ((attempt fr inner (n + 1) (before fr inner bo s n).1).1, .err e h) := by
       rw [← he]
-    rw [retryIter_again cfg fr inner max fuel (n + 1) _ _ _ e h hi (hmax n (by omega)) hf]
+    rw [retryIter_again cfg fr inner max fuel (n + 1) _ _ _ e h hi
+      (belowMax_atMax _ _ (hmax n (by omega))) hf (belowMax_goesOn _ _ (hmax n (by omega))) (hsl n (by omega))]
     rfl
 
 /-- A body that leaves the virtual clock and the random source alone. -/
@@ -140,10 +214,20 @@ theorem before_clock (fr : Frame) (inner : Frame → Body) (hk : KeepsClock inne
     rw [k1, k2, ih1, ih2, ih3, hs, hr, hb, Nat.add_comm 1 n]
     simp
 
+/-- for a body that leaves clock and random source alone, the duration slept after failed attempt `i+1`
+    is the `i+1`-th interval of the back-off schedule (a function of the configuration alone). -/
+theorem chainInterval_eq (fr : Frame) (inner : Frame → Body) (hk : KeepsClock inner) (bo : BackoffState) (s : St)
+    (i : Nat) :
+    chainInterval fr inner bo s i = (interval (stateAfter bo s.rnd 1 i) (i + 1) (rndAfter bo s.rnd 1 i)).1 := by
+  obtain ⟨_, b2, b3⟩ := before_clock fr inner hk bo s i
+  obtain ⟨_, k2⟩ := attempt_keeps fr inner hk (i + 1) (before fr inner bo s i).1
+  unfold chainInterval
+  rw [k2, b2, b3]
+
 /-! ### every bounded run has this shape -/
 
 /-- How the loop ends with the attempt `k` that came back as `p`, when it does end there. -/
-def finishAt (cfg : RetryCfg) (max : Option Nat) (k : Nat) (p : St × Res) : St × Res :=
+def finishAt (cfg : RetryCfg) (max : Option Int) (k : Nat) (p : St × Res) : St × Res :=
   match p.2 with
   | .err e _ =>
     if atMax max k then p
@@ -152,49 +236,58 @@ def finishAt (cfg : RetryCfg) (max : Option Nat) (k : Nat) (p : St × Res) : St 
       | _ => p
   | _ => p
 
-theorem atMax_lt (m k : Nat) (h : k < m) : atMax (some m) k = false := by
+theorem atMax_lt (m k : Nat) (h : k < m) : atMax (some (m : Int)) k = false := by
   simp only [atMax, Bool.and_eq_false_imp, beq_eq_false_iff_ne]; intro _; omega
 
-theorem atMax_self (m : Nat) (h : m ≠ 0) : atMax (some m) m = true := by
+theorem belowMax_lt (m k : Nat) (h : k < m) : belowMax (some (m : Int)) k := by
+  intro m' hm' _; injection hm' with hm'; omega
+
+theorem atMax_self (m : Nat) (h : m ≠ 0) : atMax (some (m : Int)) m = true := by
   simp [atMax, h]
 
+/-- a real bound `m ≥ 1`: every failed attempt below it is followed by a sleep (never the `assert`) -/
+theorem goesOn_lt (m k : Nat) (h : k < m) : goesOn (some (m : Int)) k = true :=
+  belowMax_goesOn _ _ (belowMax_lt m k h)
+
 theorem retry_run_shape_aux (cfg : RetryCfg) (fr : Frame) (inner : Frame → Body) (m : Nat)
-    (bo : BackoffState) (s : St) (fuel : Nat) (hfuel : m ≤ fuel) :
+    (bo : BackoffState) (s : St) (fuel : Nat) (hfuel : m ≤ fuel)
+    (hsl : ∀ i, i + 1 < m → SleepOk fr inner bo s i) :
     ∀ d n, n + d + 1 = m → (∀ i, i < n → Retried cfg fr inner bo s i) →
       ∃ j, n ≤ j ∧ j < m ∧ (∀ i, i < j → Retried cfg fr inner bo s i) ∧
-        retryIter cfg fr inner (some m) fuel 1 bo s =
-          finishAt cfg (some m) (j + 1) (attempt fr inner (j + 1) (before fr inner bo s j).1) := by
+        retryIter cfg fr inner (some (m : Int)) fuel 1 bo s =
+          finishAt cfg (some (m : Int)) (j + 1) (attempt fr inner (j + 1) (before fr inner bo s j).1) := by
   intro d
   induction d with
   | zero =>
     intro n hn hfail
     refine ⟨n, Nat.le_refl _, by omega, hfail, ?_⟩
     obtain ⟨f', hf'⟩ : ∃ f', fuel = (f' + 1) + n := ⟨fuel - n - 1, by omega⟩
-    rw [hf', retryIter_prefix cfg fr inner (some m) bo s n hfail (fun i hi => atMax_lt m (i + 1) (by omega))]
+    rw [hf', retryIter_prefix cfg fr inner (some (m : Int)) bo s n hfail
+      (fun i hi => belowMax_lt m (i + 1) (by omega)) (fun i hi => hsl i (by omega))]
     rcases hp : attempt fr inner (n + 1) (before fr inner bo s n).1 with ⟨s1, r⟩
-    have hmx : atMax (some m) (n + 1) = true := by
+    have hmx : atMax (some (m : Int)) (n + 1) = true := by
       have : n + 1 = m := by omega
       rw [this]; exact atMax_self m (by omega)
     cases r with
-    | err e h => rw [retryIter_last cfg fr inner (some m) f' (n + 1) _ _ s1 e h hp hmx]; simp [finishAt, hmx]
-    | _ => rw [retryIter_success cfg fr inner (some m) f' (n + 1) _ _ s1 _ hp rfl]; simp [finishAt]
+    | err e h => rw [retryIter_last cfg fr inner (some (m : Int)) f' (n + 1) _ _ s1 e h hp hmx]; simp [finishAt, hmx]
+    | _ => rw [retryIter_success cfg fr inner (some (m : Int)) f' (n + 1) _ _ s1 _ hp rfl]; simp [finishAt]
   | succ d ih =>
     intro n hn hfail
     obtain ⟨f', hf'⟩ : ∃ f', fuel = (f' + 1) + n := ⟨fuel - n - 1, by omega⟩
-    have hpre := retryIter_prefix cfg fr inner (some m) bo s n hfail
-      (fun i hi => atMax_lt m (i + 1) (by omega)) (f' + 1)
+    have hpre := retryIter_prefix cfg fr inner (some (m : Int)) bo s n hfail
+      (fun i hi => belowMax_lt m (i + 1) (by omega)) (fun i hi => hsl i (by omega)) (f' + 1)
     rcases hp : attempt fr inner (n + 1) (before fr inner bo s n).1 with ⟨s1, r⟩
-    have hmx : atMax (some m) (n + 1) = false := atMax_lt m (n + 1) (by omega)
+    have hmx : atMax (some (m : Int)) (n + 1) = false := atMax_lt m (n + 1) (by omega)
     cases r with
     | err e h =>
       rcases hflt : retryFilters cfg s1 e.name with x | b
       · refine ⟨n, Nat.le_refl _, by omega, hfail, ?_⟩
-        rw [hf', hpre, retryIter_filter_error cfg fr inner (some m) f' (n + 1) _ _ s1 e h x hp hmx hflt]
+        rw [hf', hpre, retryIter_filter_error cfg fr inner (some (m : Int)) f' (n + 1) _ _ s1 e h x hp hmx hflt]
         simp [finishAt, hmx, hflt, hp]
       · cases b with
         | true =>
           refine ⟨n, Nat.le_refl _, by omega, hfail, ?_⟩
-          rw [hf', hpre, retryIter_stop cfg fr inner (some m) f' (n + 1) _ _ s1 e h hp hmx hflt]
+          rw [hf', hpre, retryIter_stop cfg fr inner (some (m : Int)) f' (n + 1) _ _ s1 e h hp hmx hflt]
           simp [finishAt, hmx, hflt, hp]
         | false =>
           have hret : Retried cfg fr inner bo s n := ⟨e, h, by rw [hp], by rw [hp]; exact hflt⟩
@@ -207,7 +300,7 @@ theorem retry_run_shape_aux (cfg : RetryCfg) (fr : Frame) (inner : Frame → Bod
           exact ⟨j, by omega, hj2, hj3, hj4⟩
     | _ =>
       refine ⟨n, Nat.le_refl _, by omega, hfail, ?_⟩
-      rw [hf', hpre, retryIter_success cfg fr inner (some m) f' (n + 1) _ _ s1 _ hp rfl]
+      rw [hf', hpre, retryIter_success cfg fr inner (some (m : Int)) f' (n + 1) _ _ s1 _ hp rfl]
       simp [finishAt, hp]
 
 /-! ### stopOn / retryOn -/
@@ -317,8 +410,8 @@ theorem retryFilters_ctx (cfg : RetryCfg) (s s' : St) (n : String) (h : s.ctx = 
 /-- `context.get_formatted_value(self.backoff) if self.backoff else config.default_backoff`. -/
 def decName (cfg : RetryCfg) (s : St) : Except Exc Val :=
   match cfg.backoff with
-  | some b => if b.truthy then fmtV s b else .ok (.str "fixed")
-  | none => .ok (.str "fixed")
+  | some b => if b.truthy then fmtV s b else .ok (.str s.defaultBackoff)
+  | none => .ok (.str s.defaultBackoff)
 
 /-- `max_sleep`: `None` unless `sleepMax` is truthy, then formatted as float. -/
 def decMaxSleep (cfg : RetryCfg) (s : St) : Except Exc (Option Num) :=
@@ -339,18 +432,10 @@ def decBase (argsV : Val) : Num :=
     | none => ⟨2, 0, false⟩
   | _ => ⟨2, 0, false⟩
 
-/-- the sleep value as numbers; a list only for `fixed` / `jitter`. -/
-def decSleep (sleepV : Val) (kind : BackoffKind) : Option (Num × Option (List Num)) :=
-  let listOk := match sleepV, kind with
-    | .list _, .fixed | .list _, .jitter => true
-    | .list _, _ => false
-    | _, _ => true
-  if listOk then sleepNums sleepV else none
-
-/-- `max`: `None` unless truthy, then formatted as int. -/
-def decMax (cfg : RetryCfg) (s : St) : Except Exc (Option Nat) :=
+/-- `max`: `None` unless truthy, then formatted as int (any sign: see `retryIter`). -/
+def decMax (cfg : RetryCfg) (s : St) : Except Exc (Option Int) :=
   match cfg.max with
-  | some m => if m.truthy then (fmtInt s m).map fun i => some i.toNat else .ok none
+  | some m => if m.truthy then (fmtInt s m).map some else .ok none
   | none => .ok none
 
 /-- `retryLoop` written with the decoders above (definitionally the same function). -/
@@ -371,44 +456,212 @@ def retryLoop' (cfg : RetryCfg) (fr : Frame) (inner : Frame → Body) (fuel : Na
   match decArgs cfg s with
   | .error x => raiseExc s x
   | .ok argsV =>
-  match (match nameV with | .str n => BackoffKind.ofName? n | _ => none) with
-  | none => raiseNew s "ValueError" "~unknown back-off strategy"
-  | some kind =>
-  match decSleep sleepV kind, jrcV.num? with
-  | some (sl, lst), some jrc =>
+  match lookupBackoff nameV with
+  | .fail n m => raiseNew s n m
+  | .outside => raiseNew s "OutOfDomain" "custom back-off callable"
+  | .kind kind =>
+  match buildBackoff kind sleepV maxSleep jrcV argsV with
+  | .fail n m => raiseNew s n m
+  | .outside => raiseNew s "OutOfDomain" "retry sleep/jrc not numeric"
+  | built =>
     match decMax cfg s with
     | .error x => raiseExc s x
-    | .ok max => retryIter cfg fr inner max fuel 1 (mkBackoff kind sl lst maxSleep jrc (decBase argsV)) s
-  | _, _ => raiseNew s "OutOfDomain" "retry sleep/jrc not numeric"
+    | .ok max =>
+      match built with
+      | .good bo => retryIter cfg fr inner max fuel 1 bo s
+      | .faulty y => retryFaulty cfg fr inner max y s
+      | _ => (s, .ok)
 
 theorem retryLoop_eq (cfg : RetryCfg) (fr : Frame) (inner : Frame → Body) (fuel : Nat) (s : St) :
     retryLoop cfg fr inner fuel s = retryLoop' cfg fr inner fuel s := rfl
 
-/-- Once everything `retry_loop` evaluates up front has a value, the loop is `retryIter` from
-    attempt 1 with `context['retryCounter'] = 0` written first, the back-off callable built from
-    those values, and `base` taken from `backoffArgs` (default 2). -/
+/-- Once everything `retry_loop` evaluates up front has a value, the back-off name is one of the six
+    built-ins and the constructor succeeds with the callable `bo`, the loop is `retryIter` from
+    attempt 1 with `context['retryCounter'] = 0` written first. -/
 theorem retryLoop_decodes (cfg : RetryCfg) (fr : Frame) (inner : Frame → Body) (fuel : Nat) (s : St)
-    (sleepV jrcV argsV : Val) (name : String) (kind : BackoffKind) (ms : Option Num)
-    (sl : Num) (lst : Option (List Num)) (jrc : Num) (max : Option Nat)
+    (sleepV nameV jrcV argsV : Val) (kind : BackoffKind) (ms : Option Num) (bo : BackoffState) (max : Option Int)
     (h1 : fmtV { s with ctx := Ctx.set s.ctx "retryCounter" (.int 0) } cfg.sleep = .ok sleepV)
-    (h2 : decName cfg { s with ctx := Ctx.set s.ctx "retryCounter" (.int 0) } = .ok (.str name))
+    (h2 : decName cfg { s with ctx := Ctx.set s.ctx "retryCounter" (.int 0) } = .ok nameV)
     (h3 : decMaxSleep cfg { s with ctx := Ctx.set s.ctx "retryCounter" (.int 0) } = .ok ms)
     (h4 : fmtV { s with ctx := Ctx.set s.ctx "retryCounter" (.int 0) } cfg.jrc = .ok jrcV)
     (h5 : decArgs cfg { s with ctx := Ctx.set s.ctx "retryCounter" (.int 0) } = .ok argsV)
-    (h6 : BackoffKind.ofName? name = some kind)
-    (h7 : decSleep sleepV kind = some (sl, lst)) (h8 : jrcV.num? = some jrc)
+    (h6 : lookupBackoff nameV = .kind kind)
+    (h7 : buildBackoff kind sleepV ms jrcV argsV = .good bo)
     (h9 : decMax cfg { s with ctx := Ctx.set s.ctx "retryCounter" (.int 0) } = .ok max) :
     retryLoop cfg fr inner fuel s =
-      retryIter cfg fr inner max fuel 1 (mkBackoff kind sl lst ms jrc (decBase argsV))
-        { s with ctx := Ctx.set s.ctx "retryCounter" (.int 0) } := by
+      retryIter cfg fr inner max fuel 1 bo { s with ctx := Ctx.set s.ctx "retryCounter" (.int 0) } := by
   rw [retryLoop_eq]
   unfold retryLoop'
-  simp only [h1, h2, h3, h4, h5, h6, h7, h8, h9]
+  simp only [h1, h2, h3, h4, h5, h6, h7, h9]
+
+/-- … when the constructor raises (`fixed` / `jitter` with `sleep: []`: IndexError; `exponential` with a
+    truthy `backoffArgs` that is no mapping: AttributeError), that error leaves `retry_loop` before `max` is
+    looked at and before any attempt: the body never runs. -/
+theorem retryLoop_constructor_fails (cfg : RetryCfg) (fr : Frame) (inner : Frame → Body) (fuel : Nat) (s : St)
+    (sleepV nameV jrcV argsV : Val) (kind : BackoffKind) (ms : Option Num) (n m : String)
+    (h1 : fmtV { s with ctx := Ctx.set s.ctx "retryCounter" (.int 0) } cfg.sleep = .ok sleepV)
+    (h2 : decName cfg { s with ctx := Ctx.set s.ctx "retryCounter" (.int 0) } = .ok nameV)
+    (h3 : decMaxSleep cfg { s with ctx := Ctx.set s.ctx "retryCounter" (.int 0) } = .ok ms)
+    (h4 : fmtV { s with ctx := Ctx.set s.ctx "retryCounter" (.int 0) } cfg.jrc = .ok jrcV)
+    (h5 : decArgs cfg { s with ctx := Ctx.set s.ctx "retryCounter" (.int 0) } = .ok argsV)
+    (h6 : lookupBackoff nameV = .kind kind)
+    (h7 : buildBackoff kind sleepV ms jrcV argsV = .fail n m) :
+    retryLoop cfg fr inner fuel s = raiseNew { s with ctx := Ctx.set s.ctx "retryCounter" (.int 0) } n m := by
+  rw [retryLoop_eq]
+  unfold retryLoop'
+  simp only [h1, h2, h3, h4, h5, h6, h7]
+
+/-- … a back-off name that does not resolve (an unknown bare name: ValueError; a dotted name whose module
+    or attribute does not exist; a name that is no string): raised before the constructor, `max` and any attempt. -/
+theorem retryLoop_unknown_backoff (cfg : RetryCfg) (fr : Frame) (inner : Frame → Body) (fuel : Nat) (s : St)
+    (sleepV nameV jrcV argsV : Val) (ms : Option Num) (n m : String)
+    (h1 : fmtV { s with ctx := Ctx.set s.ctx "retryCounter" (.int 0) } cfg.sleep = .ok sleepV)
+    (h2 : decName cfg { s with ctx := Ctx.set s.ctx "retryCounter" (.int 0) } = .ok nameV)
+    (h3 : decMaxSleep cfg { s with ctx := Ctx.set s.ctx "retryCounter" (.int 0) } = .ok ms)
+    (h4 : fmtV { s with ctx := Ctx.set s.ctx "retryCounter" (.int 0) } cfg.jrc = .ok jrcV)
+    (h5 : decArgs cfg { s with ctx := Ctx.set s.ctx "retryCounter" (.int 0) } = .ok argsV)
+    (h6 : lookupBackoff nameV = .fail n m) :
+    retryLoop cfg fr inner fuel s = raiseNew { s with ctx := Ctx.set s.ctx "retryCounter" (.int 0) } n m := by
+  rw [retryLoop_eq]
+  unfold retryLoop'
+  simp only [h1, h2, h3, h4, h5, h6]
+
+/-- … a callable whose every call goes wrong (a list `sleep` with linear / exponential, a `base` that is
+    no number): the loop is `retryFaulty`. -/
+theorem retryLoop_faulty (cfg : RetryCfg) (fr : Frame) (inner : Frame → Body) (fuel : Nat) (s : St)
+    (sleepV nameV jrcV argsV : Val) (kind : BackoffKind) (ms : Option Num) (y : Bool) (max : Option Int)
+    (h1 : fmtV { s with ctx := Ctx.set s.ctx "retryCounter" (.int 0) } cfg.sleep = .ok sleepV)
+    (h2 : decName cfg { s with ctx := Ctx.set s.ctx "retryCounter" (.int 0) } = .ok nameV)
+    (h3 : decMaxSleep cfg { s with ctx := Ctx.set s.ctx "retryCounter" (.int 0) } = .ok ms)
+    (h4 : fmtV { s with ctx := Ctx.set s.ctx "retryCounter" (.int 0) } cfg.jrc = .ok jrcV)
+    (h5 : decArgs cfg { s with ctx := Ctx.set s.ctx "retryCounter" (.int 0) } = .ok argsV)
+    (h6 : lookupBackoff nameV = .kind kind)
+    (h7 : buildBackoff kind sleepV ms jrcV argsV = .faulty y)
+    (h9 : decMax cfg { s with ctx := Ctx.set s.ctx "retryCounter" (.int 0) } = .ok max) :
+    retryLoop cfg fr inner fuel s =
+      retryFaulty cfg fr inner max y { s with ctx := Ctx.set s.ctx "retryCounter" (.int 0) } := by
+  rw [retryLoop_eq]
+  unfold retryLoop'
+  simp only [h1, h2, h3, h4, h5, h6, h7, h9]
+
+/-! ### what the constructors build -/
+
+/-- the six built-in names resolve to their strategy. -/
+theorem lookupBackoff_builtin (n : String) (kind : BackoffKind) (h : BackoffKind.ofName? n = some kind) :
+    lookupBackoff (.str n) = .kind kind := by
+  simp [lookupBackoff, h]
+
+/-- `fixed` / `jitter` with a number: `mkBackoff kind sl none …`; with a non-empty list of numbers: the
+    deque `mkBackoff kind 0 (some (x :: xs)) …`; with `[]`: `self.queue[-1]` raises IndexError. -/
+theorem buildBackoff_fixed (kind : BackoffKind) (hk : kind = .fixed ∨ kind = .jitter) (ms : Option Num)
+    (jrcV argsV : Val) (jrc : Num) (hj : jrcV.num? = some jrc) :
+    (∀ v sl, v.num? = some sl → (∀ xs, v ≠ .list xs) →
+      buildBackoff kind v ms jrcV argsV = .good (mkBackoff kind sl none ms jrc ⟨2, 0, false⟩)) ∧
+    (∀ (x : Val) (xs : List Val) (ns : List Num), (x :: xs).filterMap Val.num? = ns → ns.length = (x :: xs).length →
+      buildBackoff kind (.list (x :: xs)) ms jrcV argsV = .good (mkBackoff kind numZero (some ns) ms jrc ⟨2, 0, false⟩)) ∧
+    buildBackoff kind (.list []) ms jrcV argsV = .fail "IndexError" "~deque index out of range" := by
+  refine ⟨?_, ?_, ?_⟩
+  · intro v sl hv hnl
+    rcases hk with hk | hk <;> subst hk <;>
+      (unfold buildBackoff; simp only [hj]
+       cases v <;> simp_all [sleepNums, Val.num?])
+  · intro x xs ns hns hlen
+    rcases hk with hk | hk <;> subst hk <;>
+      (unfold buildBackoff; simp only [hj, sleepNums, hns, hlen, beq_self_eq_true, if_true])
+  · rcases hk with hk | hk <;> subst hk <;> (unfold buildBackoff; simp only [hj])
+
+/-- `linear` / `linearjitter`: a number is kept (`mkBackoff kind sl none …`); any list makes every call go
+    wrong - the call itself for `linearjitter` or with a `sleepMax` (TypeError), else `time.sleep`. -/
+theorem buildBackoff_linear (kind : BackoffKind) (hk : kind = .linear ∨ kind = .linearjitter) (ms : Option Num)
+    (jrcV argsV : Val) (jrc : Num) (hj : jrcV.num? = some jrc) :
+    (∀ v sl, v.num? = some sl →
+      buildBackoff kind v ms jrcV argsV = .good (mkBackoff kind sl none ms jrc ⟨2, 0, false⟩)) ∧
+    (∀ xs, buildBackoff kind (.list xs) ms jrcV argsV = .faulty (kind == .linear && maxSleepFalsy ms)) := by
+  refine ⟨?_, ?_⟩
+  · intro v sl hv
+    rcases hk with hk | hk <;> subst hk <;>
+      (unfold buildBackoff; simp only [hj]
+       cases v <;> simp_all [Val.num?])
+  · intro xs
+    rcases hk with hk | hk <;> subst hk <;> (unfold buildBackoff; simp only [hj])
+
+/-- `exponential` / `exponentialjitter` with a numeric sleep and a numeric `base` (default 2). -/
+theorem buildBackoff_exponential (kind : BackoffKind) (hk : kind = .exponential ∨ kind = .exponentialjitter)
+    (ms : Option Num) (v jrcV argsV : Val) (jrc sl base : Num) (hj : jrcV.num? = some jrc)
+    (hv : v.num? = some sl) (hb : expBase argsV = .ok (some base)) :
+    buildBackoff kind v ms jrcV argsV = .good (mkBackoff kind sl none ms jrc base) := by
+  rcases hk with hk | hk <;> subst hk <;>
+    (unfold buildBackoff; simp only [hj, hb]
+     cases v <;> simp_all [Val.num?])
+
+/-- `exponential.__init__`'s `kwargs.get('base', 2) if kwargs else 2` on no `backoffArgs`, on a mapping
+    without `base`, on a mapping with a numeric `base`: the `decBase` of the value. -/
+theorem expBase_eq_decBase :
+    expBase .none = .ok (some (decBase .none)) ∧ expBase (.dict []) = .ok (some (decBase (.dict []))) ∧
+    (∀ b x, b.num? = some x → expBase (.dict [(.str "base", b)]) = .ok (some (decBase (.dict [(.str "base", b)])))) := by
+  refine ⟨rfl, rfl, ?_⟩
+  intro b x h
+  simp [expBase, decBase, dictGet?, h, Val.truthy]
 
 theorem decBase_default : decBase .none = ⟨2, 0, false⟩ := rfl
 
 theorem decBase_given (b : Val) (x : Num) (h : b.num? = some x) :
     decBase (.dict [(.str "base", b)]) = x := by
   simp [decBase, dictGet?, h]
+
+/-! ### the unbounded loop (`max` = `None` or 0) -/
+
+theorem belowMax_unbounded (max : Option Int) (hmax : max = none ∨ max = some 0) (k : Nat) : belowMax max k := by
+  intro m hm h0
+  rcases hmax with h | h <;> rw [h] at hm
+  · cases hm
+  · injection hm with hm; exact absurd hm.symm h0
+
+/-- An attempt that is NOT failed-and-retried (no error; or the error of the `max`-th attempt; or an error
+    the filters stop; or one whose filter lists fail to format) ends the loop as `finishAt` says. -/
+theorem retryIter_finish (cfg : RetryCfg) (fr : Frame) (inner : Frame → Body) (max : Option Int)
+    (fuel k : Nat) (bo : BackoffState) (s : St)
+    (hend : ∀ e h, (attempt fr inner k s).2 = .err e h → atMax max k = false →
+      retryFilters cfg (attempt fr inner k s).1 e.name ≠ .ok false) :
+    retryIter cfg fr inner max (fuel + 1) k bo s = finishAt cfg max k (attempt fr inner k s) := by
+  rcases hp : attempt fr inner k s with ⟨s1, r⟩
+  rw [hp] at hend
+  cases r with
+  | err e h =>
+    cases hmx : atMax max k with
+    | true => rw [retryIter_last cfg fr inner max fuel k bo s s1 e h hp hmx]; simp [finishAt, hmx]
+    | false =>
+      have hne := hend e h rfl hmx
+      rcases hflt : retryFilters cfg s1 e.name with x | b
+      · rw [retryIter_filter_error cfg fr inner max fuel k bo s s1 e h x hp hmx hflt]; simp [finishAt, hmx, hflt]
+      · cases b with
+        | true => rw [retryIter_stop cfg fr inner max fuel k bo s s1 e h hp hmx hflt]; simp [finishAt, hmx, hflt]
+        | false => exact absurd hflt hne
+  | _ => rw [retryIter_success cfg fr inner max fuel k bo s s1 _ hp rfl]; simp [finishAt]
+
+/-- with no bound, "not `Retried`" is exactly the condition of `retryIter_finish`. -/
+theorem not_retried_finish (cfg : RetryCfg) (fr : Frame) (inner : Frame → Body) (bo : BackoffState) (s : St)
+    (n : Nat) (hend : ¬ Retried cfg fr inner bo s n) :
+    ∀ e h, (attempt fr inner (n + 1) (before fr inner bo s n).1).2 = .err e h →
+      retryFilters cfg (attempt fr inner (n + 1) (before fr inner bo s n).1).1 e.name ≠ .ok false :=
+  fun e h he hf => hend ⟨e, h, he, hf⟩
+
+/-- every prefix of attempts either is all `Retried`, or has a first attempt that is not. -/
+theorem retried_prefix_or_first (cfg : RetryCfg) (fr : Frame) (inner : Frame → Body) (bo : BackoffState)
+    (s : St) (n : Nat) :
+    (∀ i, i < n → Retried cfg fr inner bo s i) ∨
+    ∃ j, j < n ∧ (∀ i, i < j → Retried cfg fr inner bo s i) ∧ ¬ Retried cfg fr inner bo s j := by
+  induction n with
+  | zero => exact Or.inl (fun i hi => absurd hi (Nat.not_lt_zero i))
+  | succ n ih =>
+    rcases ih with hall | ⟨j, hj, h1, h2⟩
+    · by_cases hn : Retried cfg fr inner bo s n
+      · refine Or.inl (fun i hi => ?_)
+        by_cases hin : i < n
+        · exact hall i hin
+        · have : i = n := by omega
+          rw [this]; exact hn
+      · exact Or.inr ⟨n, by omega, hall, hn⟩
+    · exact Or.inr ⟨j, by omega, h1, h2⟩
 
 end Pypyr.Flow
